@@ -266,7 +266,9 @@ def scn_extract_points(c):
     ed = calls[2]
     c.check('extract-points: extract_dataframe(dataset, table, coordinate columns in the order given, point_dimension, '
             'missing_points) with the options unchanged',
-            ed[1].what == 'dataset' and ed[2].what == 'dataframe' and ed[3] is cols and ed[4] is dim and ed[5] is policy)
+            ed[1].what == 'dataset' and ed[2] is calls[1][3] and ed[2].what == 'dataframe' and ed[3] is cols and ed[4] is dim and ed[5] is policy)
+    c.check('extract-points: the table is handed over as read -- no row is removed, reordered or relabelled on the way (rows outside the model are the '
+            "library's business, decided by the policy)", not any(e[0] == 'frame-derived' for e in c.events))
     missed = not any(e[0] == 'call' and e[1] == 'to_netcdf_with_fixes' for e in c.events)
     if kind == 'raise':
         c.check('extract-points: the only failure of its own is a CommandException (points outside the model)',
